@@ -44,7 +44,7 @@ impl<'a, 'c> G9<'a, 'c> {
     fn expr(&mut self, want: T, depth: u32) -> (String, MT) {
         if depth == 0 { return self.atom(want); }
         // shapes valid for the wanted type come first (defaults), then all the others as mutations
-        let all = ["atom", "arith", "rem", "cmp", "eq", "bitand", "logor", "shl", "neg", "not", "bitnot", "sin", "castint", "castfloat", "sigint", "sigfloat", "ternary", "switch"];
+        let all = ["atom", "arith", "rem", "cmp", "eq", "bitand", "logor", "shl", "neg", "not", "bitnot", "sin", "castint", "castfloat", "sigint", "sigfloat", "ternary", "switch", "switch-hole", "switch-hole-tail"];
         let s = all[self.ch.pick(all.len())];
         let d = depth - 1;
         // operand "wanted" types: chosen to make the default well-typed for `want` where the shape allows
@@ -84,6 +84,16 @@ impl<'a, 'c> G9<'a, 'c> {
                 let (a, ta) = self.expr(want, d); let (b, tb) = self.expr(want, d);
                 let t = match (ta, tb) { (Some(x), Some(y)) if x == y => Some(x), (None, _) | (_, None) => None, _ => self.bad() };
                 (format!("({a}:{b})"), t)
+            },
+            "switch-hole" | "switch-hole-tail" => {
+                // omitted cases (`a::b`, `a::b:c`): every written case must still have the type of the first
+                let (a, ta) = self.expr(want, d); let (b, tb) = self.expr(want, d);
+                let mut t = match (ta, tb) { (Some(x), Some(y)) if x == y => Some(x), (None, _) | (_, None) => None, _ => self.bad() };
+                if s == "switch-hole" { (format!("({a}::{b})"), t) } else {
+                    let (c, tc) = self.expr(want, d);
+                    t = match (t, tc) { (Some(x), Some(y)) if x == y => Some(x), (None, _) | (_, None) => None, _ => self.bad() };
+                    (format!("({a}::{b}:{c})"), t)
+                }
             },
             _ => unreachable!(),
         }
@@ -290,7 +300,7 @@ pub fn run(tier: &str) -> Report {
         rep.failures.extend(o.failures);
     }
     rep.exhaustive = true;
-    rep.bound_completed = format!("deviations<={bound} (the nesting position is a free choice: full product), expression depth<={depth}; 18 statement contexts x 9 nesting positions x 18 expression shapes x 13 atoms of all types");
+    rep.bound_completed = format!("deviations<={bound} (the nesting position is a free choice: full product), expression depth<={depth}; 18 statement contexts x 9 nesting positions x 20 expression shapes (incl. difficulty switches with omitted cases) x 13 atoms of all types");
     rep.rule = "E-DFS over an untyped statement/expression grammar whose default alternatives are well-typed; every other alternative (an atom, operator, cast, sigil, arity or variable of another type) is one deviation, so the single-point mutations of every base program are covered; non-trivial = M4 judges the program ill-typed".into();
     rep.assumptions = vec!["M4 reference typer (harness), written from the documented rules".into(), "AstVm::eval for the value-type clause".into()];
     rep.explanation = "Ok/Err of passes::type_check::run compared with M4's verdict at every nesting position; for accepted programs Expr::compute_ty of every subexpression compared with the type of its evaluated value".into();
